@@ -94,4 +94,127 @@ func c22(x *Ctx) {
 		c.Decide(ok && n > 0, r2, "batchedEvent.getEventTime", x.PosOf(be.Pos()), "msgpack timestamp returned as is (UTC)", "a msgpack timestamp is transformed (arithmetic, formatting or re-parsing) before it becomes the event time")
 	}
 	c.Min(r2, 1)
+
+	// ---- the forwarded time is encoded by the msgpack library, from the time value itself -----------------
+	const r3 = "C22.forwarded-time-encoder"
+	tf := eng.FieldIs("transmit", "batchedEvent", "time")
+	nUse := 0
+	for _, f := range x.PkgFuncs("transmit") {
+		eng.Instrs(f, func(in ssa.Instruction) {
+			u, ok := in.(*ssa.UnOp)
+			if !ok || !loadsField(u, tf) {
+				return
+			}
+			nUse++
+			c.Examined++
+			bad := ""
+			var uses func(v ssa.Value, depth int)
+			uses = func(v ssa.Value, depth int) {
+				if v.Referrers() == nil {
+					return
+				}
+				for _, ref := range *v.Referrers() {
+					cl, isCall := ref.(ssa.CallInstruction)
+					if !isCall {
+						if _, isDbg := ref.(*ssa.DebugRef); !isDbg {
+							bad = "a use other than a call: " + ref.String()
+						}
+						continue
+					}
+					switch n := eng.CalleeName(cl); n {
+					case "github.com/tinylib/msgp/msgp.AppendTimeExt", "(*github.com/tinylib/msgp/msgp.Writer).WriteTimeExt", "(time.Time).IsZero":
+					default:
+						// a helper of this repository that only passes the time on is fine
+						g := cl.Common().StaticCallee()
+						if g != nil && g.Blocks != nil && x.P.Funcs()[g] && depth < 2 {
+							for i, a := range cl.Common().Args {
+								if a == v && i < len(g.Params) {
+									uses(g.Params[i], depth+1)
+								}
+							}
+							continue
+						}
+						bad = "it is handed to " + n
+					}
+				}
+			}
+			uses(u, 0)
+			c.Decide(bad == "", r3, BaseName(f)+"/time", x.Pos(in), "the event time goes to msgp's standard timestamp encoder unchanged",
+				"the time forwarded to Honeycomb is not encoded by the msgpack library's standard timestamp encoder from the time value itself ("+bad+"): a hand-written or lossy encoding (seconds/nanoseconds arithmetic, formatting) changes instants the library encodes exactly")
+		})
+	}
+	if nUse == 0 {
+		c.Undecided(r3, "batchedEvent.time", "transmit/direct_transmit.go", "no read of the forwarded event's time found")
+	}
+	// the time stored in the forwarded event is the event's Timestamp
+	for _, w := range eng.FieldWrites(x.PkgFuncs("transmit"), tf) {
+		c.Examined++
+		st := w.Instr.(*ssa.Store)
+		c.Decide(loadsField(st.Val, eng.FieldIs("types", "Event", "Timestamp")), r3, BaseName(w.Fn)+"/time-source", x.Pos(st), "taken from Event.Timestamp as is", "the forwarded time is not the event's Timestamp field as is")
+	}
+	c.Min(r3, 2)
+
+	// ---- strings taken from the pooled JSON parser are copied before they are kept ----------------------------
+	// ((*fastjson.Value).GetStringBytes aliases the parser's buffer, which goes back to a pool and is overwritten
+	// by the next request; the time and every other kept string must be copied while the parser is still held)
+	const r4 = "C22.parser-bytes-copied"
+	nGet := 0
+	for _, f := range x.PkgFuncs("route") {
+		eng.Instrs(f, func(in ssa.Instruction) {
+			cl, ok := in.(*ssa.Call)
+			if !ok || eng.CalleeName(cl) != "(*github.com/valyala/fastjson.Value).GetStringBytes" {
+				return
+			}
+			nGet++
+			c.Examined++
+			bad := ""
+			seen := map[ssa.Value]bool{}
+			var walk func(v ssa.Value)
+			walk = func(v ssa.Value) {
+				if seen[v] || v.Referrers() == nil {
+					return
+				}
+				seen[v] = true
+				for _, ref := range *v.Referrers() {
+					switch y := ref.(type) {
+					case *ssa.Store:
+						if y.Val == v {
+							if _, local := y.Addr.(*ssa.Alloc); !local {
+								bad = "stored at " + x.Pos(y)
+							} else {
+								// spilled local: follow its loads
+								for _, r2 := range *y.Addr.Referrers() {
+									if ld, ok := r2.(*ssa.UnOp); ok {
+										walk(ld)
+									}
+								}
+							}
+						}
+					case *ssa.MapUpdate:
+						if y.Value == v || y.Key == v {
+							bad = "kept in a map at " + x.Pos(y)
+						}
+					case *ssa.Slice:
+						walk(y)
+					case *ssa.Phi:
+						walk(y)
+					case *ssa.MakeInterface:
+						bad = "boxed into an interface at " + x.Pos(y)
+					case *ssa.Return:
+						bad = "returned at " + x.Pos(y)
+					case *ssa.Call:
+						if b, ok := y.Call.Value.(*ssa.Builtin); ok && b.Name() == "append" && len(y.Call.Args) > 0 && y.Call.Args[0] == v {
+							walk(y) // appending TO it keeps the alias
+						}
+					}
+				}
+			}
+			walk(cl)
+			c.Decide(bad == "", r4, BaseName(f)+"/GetStringBytes", x.Pos(in), "converted to a string (copied) before being kept",
+				"bytes returned by the pooled JSON parser are kept without a copy ("+bad+"): they alias the parser's buffer, which the next request overwrites – the event's time (or field) silently becomes another request's")
+		})
+	}
+	if nGet == 0 {
+		c.Hold(r4, "route/no-GetStringBytes", "route/batched_event.go", "the JSON batch path takes no raw byte views from the parser")
+	}
 }
